@@ -98,8 +98,20 @@ def gen_cases(tier, seed):
             f["segs"] = [[o, min(l, limit)] for o, l in f["segs"]]
         args = ["--driver", driver, "-w", str(r.choice([1, 2, 4])), "--reflink", "auto"]
         args += ["--no-progress"] if bsv is None else ["--block-size", str(bsv)]
-        args += [f["p"], "dst"]
-        yield {"kind": "xcp", "fs": "tmpfs" if r.random() < 0.25 else "ext4", "spec": [{"p": "src", "k": "d"}, f], "args": args,
+        extra_files = []
+        if r.random() < 0.35:
+            # more files in the same run: whatever the driver remembers about the first file's I/O must not leak into the next
+            for k in range(1, r.randint(2, 3)):
+                g = gen_file(r, bsv, k, False)
+                if g["segs"] is None:
+                    g["size"] = min(g["size"], limit)
+                else:
+                    g = dict(f, p="src/f%d" % k, seed=r.randrange(1, 1 << 30))
+                extra_files.append(g)
+            args += ["-r", "src", "dst"]
+        else:
+            args += [f["p"], "dst"]
+        yield {"kind": "xcp", "fs": "tmpfs" if r.random() < 0.25 else "ext4", "spec": [{"p": "src", "k": "d"}, f] + extra_files, "args": args,
                "driver": driver, "block": bname, "bsv": bsv, "policy": pname, "rules": rules}
     # portable back end through the libfs-only probe
     m = 120 if tier == "quick" else 3000
@@ -160,15 +172,20 @@ def run_case(case):
             res["counters"]["nonzero-exit"] = 1
             res["counters"]["nonzero:" + case["policy"].split(":")[0]] = 1
             return res
-        dstp = os.path.join(b(root), b"dst")
-        ok_size = os.path.exists(dstp) and os.path.getsize(dstp) == f["size"]
-        if not ok_size or tree.sha_file(dstp) != src_sha:
-            off, kind = (None, None)
-            if os.path.exists(dstp):
-                off, kind = model.first_diff(srcp, dstp)
-            sig = "%s:%s:%s" % (target, case["policy"].split(":")[0], "size" if not ok_size else "bytes")
-            res["viol"].append({"sig": sig, "what": "exit 0 but destination differs from source (size %d, first difference at %s: %s) under policy %s; %s"
-                                % (f["size"], off, kind, case["policy"], " ".join(case.get("args", [case.get("api", "")])))})
+        multi = len(case["spec"]) > 2
+        for fe in case["spec"][1:]:
+            sp_ = os.path.join(b(root), b(fe["p"]))
+            dstp = os.path.join(b(root), b"dst", os.path.basename(b(fe["p"]))) if multi else os.path.join(b(root), b"dst")
+            ok_size = os.path.exists(dstp) and os.path.getsize(dstp) == fe["size"]
+            if not ok_size or tree.sha_file(dstp) != tree.sha_file(sp_):
+                off, kind = (None, None)
+                if os.path.exists(dstp):
+                    off, kind = model.first_diff(sp_, dstp)
+                sig = "%s:%s:%s" % (target, case["policy"].split(":")[0], "size" if not ok_size else "bytes")
+                res["viol"].append({"sig": sig, "what": "exit 0 but destination of %s differs from source (size %d, first difference at %s: %s) under policy %s; %s"
+                                    % (fe["p"], fe["size"], off, kind, case["policy"], " ".join(case.get("args", [case.get("api", "")])))})
+        if multi:
+            res["counters"]["multi-file-runs"] = 1
         key = None
         if applied or case["policy"] == "none":
             key = [target, case["policy"], size_class(f["size"], case["bsv"]), f.get("layout"), case["fs"]]
